@@ -9,6 +9,7 @@ import Arca.Driver.Provider
 import Arca.Driver.Prepare
 import Arca.Driver.Foreach
 import Arca.Driver.EngineApi
+import Arca.Driver.Input
 
 open Lean (Json)
 open Arca.Driver
@@ -53,4 +54,5 @@ def main (args : List String) : IO UInt32 := do
   | "prepare" :: rest => cmdPrepare rest; return 0
   | "foreach" :: rest => cmdForeach rest; return 0
   | "engineapi" :: rest => cmdEngineApi rest; return 0
+  | "input" :: rest => cmdInput rest; return 0
   | _ => IO.eprintln "usage: arcadrv loop [errCap]"; return 2
